@@ -36,6 +36,9 @@ class LineStage:
         if self.impl == "c_s2":
             ok, exe, log = core.build_c()
             return ok, exe + "_s2", log
+        if self.impl == "c_nd":
+            ok, exe, log = core.build_c()
+            return ok, exe + "_nd", log
         if self.impl == "b3sum":
             return core.build_b3sum()
         raise core.InternalError(f"unknown impl {self.impl}")
